@@ -131,10 +131,6 @@ func runBatching(res *prog.Result, label string, sc regsim.Scenario, cuts []bool
 		if err != nil {
 			return zero, fail(res, "handler-error", "%s: HandleBlockEventsStream returned an error on a healthy database: %v", where, err)
 		}
-		if d := matchTasks(exp, tasks); d != "" {
-			return zero, fail(res, "tasks:"+taskSig(d),
-				"%s: %s\n  expected %v\n  executed %v", where, d, descs(exp), tasks)
-		}
 		want := m.Snapshot()
 		got, err := env.Snapshot()
 		if err != nil {
@@ -149,6 +145,10 @@ func runBatching(res *prog.Result, label string, sc regsim.Scenario, cuts []bool
 		}
 		if cat, d := regsim.Diff(want, fresh); cat != "" {
 			return zero, fail(res, "restart:"+cat, "after %s a node storage re-created on the same database (restart) differs from the registration rules / the in-memory view:\n%s", where, d)
+		}
+		if d := matchTasks(exp, tasks); d != "" {
+			return zero, fail(res, "tasks:"+taskSig(d),
+				"%s: %s\n  expected %v\n  executed %v", where, d, descs(exp), tasks)
 		}
 		if r := doMeta(b.Metas); r != nil {
 			return zero, r
@@ -219,6 +219,8 @@ func run(p Prog) *prog.Result {
 			}
 		}
 	}
+	prog.Count("TestPropRegistry", "events", len(p.Sc.Events))
+	prog.Count("TestPropRegistry", "blocks", len(ba)+len(bb))
 	if p.Sc.Us == 0 {
 		classes["not-registered"] = true
 	}
